@@ -849,7 +849,7 @@ class Skip(Exception):
 class ObjSim:
     name = "objsim"
     components = {
-        "real": ["xobjects.struct / array / string / ref / scalar / typeutils (constructors, accessors, _from_buffer, _update)", "xobjects.context.XBuffer allocate/free/grow", "BufferNumpy / BufferByteArray", "ContextCpu.new_buffer", "pickle protocol of Struct/Array/buffers/contexts"],
+        "real": ["xobjects.struct / array / string / ref / scalar / typeutils (constructors, accessors, _from_buffer, _update)", "xobjects.context.XBuffer allocate/free/grow", "BufferNumpy / BufferByteArray", "ContextCpu.new_buffer", "pickle protocol of Struct/Array/buffers/contexts, in process and (cold restart) in a fresh interpreter that loads the same bytes with the real library"],
         "stub": ["_new_buffer/allocate/grow/free wrapped for logging and planned relocation (bodies are the real ones)", "contexts are SimContext(ContextCpu) handing out Sim buffers"],
     }
     expected_probes = {}
